@@ -11,7 +11,7 @@ META = {
     "rule": "K1 every public method of Analysis reaches the database only through with_db, whose body is Cancelled::catch(..); "
             "K2 Analysis holds a salsa::Snapshot and has no &mut method, AnalysisHost::apply_change takes &mut self and requests "
             "cancellation before writing; K3 the server maps a Cancelled error to REQUEST_CANCELLED before any other mapping. "
-            "One obligation per Analysis method / clause. K4 no public Analysis method discards a Cancelled error (unwrap_or*, ok(), an Err arm that reaches Ok(..)).",
+            "One obligation per Analysis method / clause. K4 no public Analysis method discards a Cancelled error (unwrap_or*, ok(), an Err arm that reaches Ok(..)). K5/K6 = C11 H6/H7; K7 no build profile sets panic = abort.",
     "explanation": "Decides the narrow structural clauses that make cancellation surface as Err(Cancelled) rather than as an "
                    "unwinding panic and that make snapshot isolation salsa's job. The interleaving clauses of C12 (exactly the "
                    "pre-change answer or cancellation, prompt completion) quantify over schedules and are not decided.",
@@ -111,6 +111,11 @@ def run(F, res, tier):
     res.ob("K3", "maps-to-request-cancelled", "a Cancelled error becomes ErrorCode::REQUEST_CANCELLED", code_ok, where=er.loc(),
            how="constant %s" % res.analysed.get("cancel_code_const"))
     cancelled_not_swallowed(F, res, sorted(pub, key=lambda x: x.name), "K4", lambda f: "Analysis::%s" % f.name)
+    # what salsa may back-date is decided by the equality of the query values (C11 H6/H7): a scope that compares equal although a
+    # visibility, an id or an order changed leaves the dependents with the old answer
+    from rules import c11 as _c11
+    _c11.value_equality_rules(F, res, rule="K5", rule2="K6")
+    cancellation_can_unwind(F, res)
 
 
 def apply_unconditional(F):
@@ -176,3 +181,29 @@ def cancelled_not_swallowed(F, res, fns, rule, what):
                             st.append(y)
         res.ob(rule, "cancelled-propagates/%s" % f.path.rsplit("::", 1)[-1], "%s only propagates a cancellation (`?`), it never replaces it by a value" % what(f),
                not bad, where=f.loc(), how="no discarding use of a Cancellable" if not bad else "; ".join(sorted(set(bad))[:3]))
+
+
+def cancellation_can_unwind(F, res, rule="K7"):
+    """K7: salsa delivers cancellation by unwinding (Cancelled is a panic payload caught by Cancelled::catch). A build profile with
+    panic = "abort" turns every cancelled query into the death of the process. Read from the Cargo manifests of the tree."""
+    import json, os, tomllib
+    path = os.path.join(F.dir, "manifests.json")
+    if not os.path.exists(path):
+        res.anchor_missing(rule, "manifests.json next to the facts")
+        return
+    ms = json.load(open(path))
+    bad = []
+    nprof = 0
+    for f, txt in sorted(ms.items()):
+        try:
+            t = tomllib.loads(txt)
+        except Exception as e:  # noqa
+            res.anchor_missing(rule, "%s does not parse: %s" % (f, e))
+            continue
+        for name, prof in (t.get("profile") or {}).items():
+            nprof += 1
+            if isinstance(prof, dict) and prof.get("panic") == "abort":
+                bad.append("%s [profile.%s]" % (f, name))
+    res.ob(rule, "profiles/panic-unwinds", "no build profile of the workspace sets panic = abort: cancellation reaches a running query as an unwind",
+           not bad, where="Cargo.toml", how="%d manifests, %d profile sections; panic = abort in: %s" % (len(ms), nprof, bad))
+    res.floor("Cargo manifests read", len(ms), 5)
